@@ -80,6 +80,8 @@ def run(ctx):
                 "memory registers and arrays, unit module.  non-trivial = at least 3 instructions and the reference "
                 "semantics defined on the whole case; distinct = distinct (cap, subroutines)")
     ctx.props("C04")
+    # bridges from the private interpreters of C03/C05/C08/C10 to Sem / SemQ
+    ctx.props("C04_bridges")
     quick = ctx.tier == "quick"
     if not quick:
         coqchk(ctx)
@@ -136,12 +138,14 @@ def coqchk(ctx):
     """thorough tier: re-check the compiled proofs with the independent checker"""
     import subprocess
     import vlib
-    r = subprocess.run(["timeout", "900", "coqchk", "-silent", "-o", "-Q", vlib.COQ, "NQ", "NQ.Proofs.ExecProofs"],
+    mods = ["NQ.Proofs.ExecProofs", "NQ.Proofs.Bridge_Asm", "NQ.Proofs.Bridge_AsmChain", "NQ.Proofs.Bridge_Nv",
+            "NQ.Proofs.Bridge_Sdk", "NQ.Proofs.Bridge_Epr"]
+    r = subprocess.run(["timeout", "1500", "coqchk", "-silent", "-o", "-Q", vlib.COQ, "NQ"] + mods,
                        capture_output=True, text=True)
     out = r.stdout + r.stderr
     ok = r.returncode == 0 and "* Axioms: <none>" in out
-    ctx.gen_obligation("coqchk -o NQ.Proofs.ExecProofs: accepted, Axioms: <none>", ok, out[-300:])
-    ctx.checker_cmds.append("coqchk -silent -o -Q coq NQ NQ.Proofs.ExecProofs")
+    ctx.gen_obligation("coqchk -o ExecProofs + Bridge_*: accepted, Axioms: <none>", ok, out[-300:])
+    ctx.checker_cmds.append("coqchk -silent -o -Q coq NQ " + " ".join(mods))
 
 
 def search(ctx, fuel):
